@@ -33,6 +33,8 @@ def tie(ctx, broken):
 
 
 def search(ctx, broken):
+    if R.truncate_search(ctx, R.mon_c03):
+        return True
     specs = S.panel("thorough", ctx.seed + 17)[:40]
     out = [(tr, None) for tr in S.traces([(s, None) for s in specs], "c03s")]
     return R.apply_monitor(ctx, out, R.mon_c03) > 0
